@@ -245,6 +245,26 @@ pub fn c10_step(req: &J) -> J {
     }
 }
 
+/// {"program": [{"variant": "Loop", "args": ["2", "3"]}, ...]} -> the covenant's result on an empty heap (null = failed)
+pub fn c10_run(req: &J) -> J {
+    let ops = program_of(&req["program"]);
+    let r = catch_unwind(AssertUnwindSafe(|| {
+        let n = ops.len();
+        let mut ex = melvm::verif_hooks::Executor::new(ops, Default::default());
+        let mut steps = 0u64;
+        let mut failed = false;
+        while ex.pc() < n && steps < 100_000 {
+            steps += 1;
+            if ex.step().is_none() { failed = true; break; }
+        }
+        (failed, ex.stack.last().map(value_json), steps)
+    }));
+    match r {
+        Ok((failed, top, steps)) => json!({"panicked": false, "failed": failed, "top": top, "steps": steps}),
+        Err(_) => json!({"panicked": true, "msg": crate::last_panic()}),
+    }
+}
+
 pub fn c10_random(req: &J) -> J {
     // kept for interface stability: the differential run lives in the check's translation validation
     json!({"ok": true, "cases": 0, "seed": req["seed"].clone()})
